@@ -78,6 +78,10 @@ pub struct KnownFinding {
     /// the finding is a family of keys: `key` is a prefix of "<invariant>:<key>"
     #[serde(default)]
     pub key_is_prefix: bool,
+    /// like `class_atom`, but the atom only has to END with this text (e.g.
+    /// "constrained-string/string" reached directly, through a $ref, or nested)
+    #[serde(default)]
+    pub class_atom_suffix: Option<String>,
     /// like `class_atom`, but the atom only has to START with this text
     /// (e.g. "ref>integer:" for every integer format)
     #[serde(default)]
@@ -121,6 +125,9 @@ pub fn match_known<'a>(
         }
         if k.key_is_prefix {
             return full.starts_with(k.key.as_str());
+        }
+        if let (Some(suffix), Some(c)) = (&k.class_atom_suffix, &class) {
+            return k.key == head && crate::model::class_atoms(c).iter().any(|a| a.ends_with(suffix.as_str())) || (k.key == head && c.ends_with(suffix.as_str()));
         }
         if let (Some(prefix), Some(c)) = (&k.class_atom_prefix, &class) {
             return k.key == head && c.starts_with(prefix.as_str());
